@@ -5,8 +5,8 @@ package main
 // Also the package call graph used by the ownership engine.
 
 import (
-	"strings"
 	"go/types"
+	"strings"
 
 	"golang.org/x/tools/go/ssa"
 )
